@@ -211,6 +211,19 @@ def ref_hvsr(ns, ew, vt, dt, method, op, bw, fcs, width, nfft, azimuth=None, azi
         return sh[0] / sv[0], amb1 | amb2
 
 
+def dynamic_range(components, dt, width, nfft, op, bw, fcs):
+    """Per centre frequency: spectral peak of a component over its smoothed level there (max over
+    components).  FFT rounding noise is ~eps x peak, so relations between *separately transformed*
+    series hold only to ~eps x this factor."""
+    f = np.fft.rfftfreq(nfft, dt)
+    out = np.ones(len(fcs))
+    for x in components:
+        S = amp_spectrum(x, width, nfft)
+        sm, _ = ref_smooth(op, f, S, fcs, bw)
+        out = np.maximum(out, float(S.max()) / np.maximum(np.abs(sm[0]), 1e-300))
+    return out
+
+
 def ref_psd(x_windows, dt, width, nfft):
     """One-sided PSD (Welch, no overlap) of equal-length windows, as documented."""
     x_windows = [np.asarray(x, dtype=float) for x in x_windows]
